@@ -53,6 +53,12 @@ def cases(tier, seed):
     for vt in TYPES:
         for d in (3, 4):
             out.append(('layerA', d, 0, vt, tier))
+    if tier != 'quick':
+        # d = 5: all complete center and direct structures (the ~23 000 ordered regular d=5 states are covered
+        # structurally by C16 only; their data flow is checked through the whole fits)
+        for vt in ('center', 'direct'):
+            for s0 in range(0, 3 ** 10, 6000):
+                out.append(('layerA', 5, s0, vt, tier))
     for vt in TYPES:
         for k in (0, 1, 2):
             for hist in ('fresh', 'refit'):
@@ -239,14 +245,18 @@ def _layer_a(r, case):
     from copulas.multivariate import VineCopula
     from copulas.multivariate.tree import get_tree
     from mc.checks import c16
-    _, d, _, vt, tier = case
+    _, d, s0, vt, tier = case
     c16.install_memo()
     U = c16.make_U(d)
     pairs = list(itertools.combinations(range(d), 2))
     first = {}
-    for perm in itertools.permutations(range(len(pairs))):
-        vals = [0.08 + 0.11 * k for k in range(len(pairs))]
-        tau = c16.tau_matrix(pairs, [vals[p] for p in perm], d)
+    if d <= 4:
+        level1 = ([0.08 + 0.11 * p for p in perm] for perm in itertools.permutations(range(len(pairs))))
+    else:
+        # d = 5: the 3-level tie assignments of the 10 pairs, one chunk of 6000 per case
+        level1 = itertools.islice(itertools.product(c16.LEVELS3, repeat=len(pairs)), s0, s0 + 6000)
+    for vals in level1:
+        tau = c16.tau_matrix(pairs, list(vals), d)
         T1 = get_tree(vt)
         T1.fit(0, d, tau.copy(), U)
         first.setdefault(c16.okey([T1]), T1)
